@@ -730,6 +730,18 @@ func c05Stream(o *out, r *rng, thorough bool) {
 					reqs = append(reqs, creq{op: opStatFile, path: target})
 				}
 			}
+			if r.chance(60) {
+				// the way a client ends an upload: CREATE_FILE on a directory closes the write file (answer 0);
+				// a WRITE_FILE straying in afterwards has nowhere to go: refused, the upload stays as it was
+				ds := t.pathsOf('d')
+				stray := make([]byte, r.pick(1, 11, 3000))
+				for k := range stray {
+					stray[k] = byte(r.next())
+				}
+				reqs = append(reqs, creq{op: opCreateFile, path: ds[r.intn(len(ds))]}, creq{op: opWriteFile, payload: stray, announced: uint32(len(stray))},
+					creq{op: opStatFile, path: target})
+				o.count("rw:upload-closed-then-stray-write")
+			}
 			reqs = append(reqs, creq{op: opOpenFile, path: target}, creq{op: opReadFile, a: 300000, b: 0})
 		}
 		if r.chance(50) {
